@@ -287,7 +287,7 @@ def run(ctx):
                  "CUMULATIVE": "TRUE" if c["cum"] else "FALSE", "FIXD1": "FALSE" if d1 else "TRUE", "MAXSTEPS": c["steps"],
                  "NOSUM": tla_bool(c["nosum"]), "NOMINMAX": tla_bool(c["nominmax"]), "VARIANT": "code"}
             r = ctx.tlc(S, "MC_ExpoHistogram", "MC_ExpoHistogram.cfg", defines=d, want_edges=True, name=name, timeout=3000,
-                        coverage=True, count=False)
+                        coverage=True, count=False, heap="3g")
             reps = [0, 1] if thorough else [ctx.seed % 2]
             if c["maxscale"] <= 0:
                 reps = reps + [2]
@@ -303,7 +303,7 @@ def run(ctx):
                  "ROUTESET": "{" + ", ".join('"%s"' % r_ for r_ in c["routes"]) + "}", "VALS": tla_vals(vals, ("r", "p", "k")),
                  "CUMULATIVE": "TRUE" if c["cum"] else "FALSE", "MAXSTEPS": c["steps"],
                  "NOSUM": tla_bool(c["nosum"]), "NOMINMAX": tla_bool(c["nominmax"]), "VARIANT": "code"}
-            r = ctx.tlc(S, "MC_Histogram", "MC_Histogram.cfg", defines=d, want_edges=True, name=name, timeout=3000, count=False)
+            r = ctx.tlc(S, "MC_Histogram", "MC_Histogram.cfg", defines=d, want_edges=True, name=name, timeout=3000, count=False, heap="2g")
             reps = c["reps"]
             cfgb = {"kind": "expl", "maxsize": 1, "maxscale": 0, "cum": c["cum"], "bounds": c["bounds"], "cbounds": c["cbounds"],
                     "nosum": c["nosum"], "nominmax": c["nominmax"]}
